@@ -4,7 +4,7 @@ From Coq Require Import List NArith ZArith Bool.
 From GoPdf.Base Require Import Bytes Res.
 From GoPdf.Gen Require Import Gen_Consts Gen_Perm.
 From GoPdf.C09 Require Import Word MD5 RC4 SHA2 AES Pkcs7 StdSec Perm Vectors
-  PermProofs RC4Proofs Pkcs7Proofs StdSecProofs AESProofs AESCorrect.
+  PermProofs RC4Proofs Pkcs7Proofs StdSecProofs AESProofs AESCorrect ReadModel ReadProofs ApiProofs ParseModel ParseProofs.
 Import ListNotations.
 
 (* ---- permission algebra (over the functions translated from crypto.go) ------------------- *)
@@ -94,6 +94,63 @@ Theorem stream_chunking : forall (aes : bool) (okey iv : bytes) (w1 w2 : list by
   encrypt_stream aes okey iv w1 = encrypt_stream aes okey iv w2.
 Proof. exact stream_chunking_l. Qed.
 Print Assumptions stream_chunking.
+
+(* the read side: DecryptStream read through io.Reader calls.  The source hands out pieces of arbitrary
+   positive sizes ([sizes], minus one each; as much as fits once the list is used up) and reports io.EOF
+   together with the last piece or on a later call ([early]); the consumer reads with buffers of arbitrary
+   positive sizes ([cs]).  The outcome - the plaintext, or the error class - is that of the one-shot
+   function of stream_rt, for every input including damaged ones (short IV, length not a multiple of 16,
+   bad padding).  Fuel of the model's loops is shown sufficient inside the proof (no OutOfFuel outcome). *)
+Theorem stream_read_chunking : forall (aes : bool) (okey buf : bytes) (sizes : list nat) (early : bool) (cs : list nat),
+  (aes = true -> (length okey = 16 \/ length okey = 32)%nat) ->
+  read_stream aes okey buf sizes early cs = decrypt_stream aes okey buf.
+Proof. exact stream_read_chunking_s. Qed.
+Print Assumptions stream_read_chunking.
+
+(* ---- the permission algebra at the API level ------------------------------------------------------- *)
+
+(* for every version 1.1 (=1) .. 2.0 (=8) and every permission set: the revision NewWriter selects is one of
+   2, 3, 4, 6, it is 2 only if revision 2 can express the set, it is 6 exactly at version 2.0, and reading /P
+   back under that revision gives the closed permission set *)
+Theorem perm_api_exact : forall version perm : Z, (1 <= version <= 8)%Z -> (0 <= perm < 128)%Z ->
+  exists R, choose_R (writer_V version) perm = Some R /\ In R [2; 3; 4; 6]%Z
+            /\ (R = 2%Z -> canR2 perm = true)
+            /\ ((version <= 7)%Z -> R = 2%Z \/ R = 3%Z \/ R = 4%Z) /\ (version = 8%Z -> R = 6%Z)
+            /\ stdSecPToPerm R (stdSecPermToP perm) = close perm.
+Proof. exact perm_api_exact_l. Qed.
+Print Assumptions perm_api_exact.
+
+(* hence: a file written at any version below 2.0 with any permission set reports exactly close(perm) (and
+   yields the file key) when opened with the user password - unless that password also passes as owner password *)
+Theorem api_user_perm : forall (version perm : Z) (id user owner : bytes) (pm : bool) (R : Z) (c : cls),
+  (1 <= version <= 7)%Z -> (0 <= perm < 128)%Z -> choose_R (writer_V version) perm = Some R ->
+  let h := fst (create_legacy R id user owner perm (writer_keybytes version) pm) in
+  StdSec.auth_owner h (pad_passwd user) = Err c ->
+  authenticate h user = Ok (close perm, snd (create_legacy R id user owner perm (writer_keybytes version) pm)).
+Proof. exact api_user_perm_legacy_l. Qed.
+Print Assumptions api_user_perm.
+
+(* ---- /Encrypt: what AsDict writes, parseEncryptDict reads back ----------------------------------------- *)
+
+(* for every version, permission set and metadata mode NewWriter accepts and every handler of the shape
+   createStdSecHandler produces ([handler_shape]: /P a 32-bit value, /O /U of 32 resp. 48 bytes, /OE /UE /Perms
+   of 32/32/16 bytes for revision 6): the dictionary AsDict builds is parsed by parseEncryptDict +
+   openStdSecHandler + getCryptFilter into exactly the handler's parameters - revision, key length, /O /U /OE /UE
+   /Perms, /P, the EncryptMetadata flag and the crypt filters for strings and streams *)
+Theorem parse_asdict_rt : forall (version perm : Z) (h : handler),
+  (1 <= version <= 8)%Z -> (0 <= perm < 128)%Z -> (hPlainMeta h = true -> (6 <= version)%Z) ->
+  choose_R (writer_V version) perm = Some (hR h) -> handler_shape h ->
+  let aes := fst (fst (writer_cipher version)) in
+  let bits := snd (fst (writer_cipher version)) in
+  exists d, as_dict h aes bits version = Some d /\ parse_encrypt d true = Ok (params_of h aes bits).
+Proof. exact parse_asdict_rt_l. Qed.
+Print Assumptions parse_asdict_rt.
+
+(* the entry names of that dictionary are the ones C10's encrypt_dict_wf speaks about *)
+Theorem as_dict_entry_names : forall (h : handler) (aes : bool) (bits version : Z),
+  option_map (map fst) (as_dict h aes bits version) = as_dict_keys aes bits version (hR h) (hPlainMeta h).
+Proof. exact as_dict_names. Qed.
+Print Assumptions as_dict_entry_names.
 
 (* ---- authentication, revisions 2-4 ------------------------------------------------------------ *)
 
@@ -259,6 +316,10 @@ Proof. cbv zeta. split; [intros _; repeat split; try reflexivity; left; reflexiv
 (* obj_side on an instance: revision 4, 16-byte key length *)
 Example ex_obj_side : obj_side 4 16 ex_key128 true ex_iv ex_text.
 Proof. intros _. repeat split; try reflexivity. left. split; [reflexivity|]. repeat constructor. Qed.
+
+(* handler_shape holds of a handler made by the model's createStdSecHandler *)
+Example ex_handler_shape : handler_shape ex_h /\ choose_R (writer_V 2) 6 = Some (hR ex_h).
+Proof. split; [|reflexivity]. unfold handler_shape. vm_compute. repeat split; intros; discriminate || reflexivity. Qed.
 
 (* r6_inputs / create6 on an instance would need Algorithm 2.B under vm_compute (minutes); the extracted
    model runs exactly this in every check run (cases "c"/"a" with R = 6) *)
